@@ -157,6 +157,7 @@ class Frame:
     return_states: list = field(default_factory=list)  # object-env snapshot at every `return`
     alias: dict = field(default_factory=dict)  # local name -> set of local names bound to the same array object
     objalias: dict = field(default_factory=dict)  # local name -> object path it was bound to (alive = state.alive)
+    funcalias: dict = field(default_factory=dict)  # local name -> attribute expression of a bound method (normal = self.rng.normal)
 
 
 class Interp:
@@ -420,11 +421,20 @@ class Interp:
             else:
                 itv = self.eval(it, fr)
                 if isinstance(itv, Tup) and itv.items:
-                    # iterate a literal list: evaluate the body for each element
+                    # iterate a literal list: evaluate the body for each element (literal strings are
+                    # written into the body, so that `d[name]` is the constant-key access of the unrolled code)
                     status = "fall"
-                    for item in itv.items:
+                    lits = list(it.elts) if isinstance(it, (ast.Tuple, ast.List)) and len(it.elts) == len(itv.items) else [None] * len(itv.items)
+                    for item, lit in zip(itv.items, lits):
                         fr.env[tname] = item
-                        status = self.block(st.body, fr)
+                        body = st.body
+                        if isinstance(lit, ast.Constant) and isinstance(lit.value, str):
+                            import copy
+
+                            from .program import _Subst
+
+                            body = [ast.fix_missing_locations(_Subst({tname: lit}).visit(copy.deepcopy(b))) for b in st.body]
+                        status = self.block(body, fr)
                         if status in ("return", "raise"):
                             return status
                     return "fall"
@@ -470,6 +480,9 @@ class Interp:
                 pairs += [(a, b) for a, b in zip(t.elts, st.value.elts) if isinstance(a, ast.Name)]
         for a, b in pairs:
             fr.objalias.pop(a.id, None)
+            fr.funcalias.pop(a.id, None)
+            if isinstance(b, ast.Attribute):
+                fr.funcalias[a.id] = b  # used only when the name is called
             if isinstance(b, (ast.Attribute, ast.Subscript)):
                 pth = self.path_of(b, fr)
                 if pth is not None and pth in self.objenv:
@@ -500,6 +513,28 @@ class Interp:
             d = self.decide_hook(test, fr, self)
             if d is not None:
                 return d
+        # short-circuit connectives: decided operand by operand (`out is None or len(out[0]) != n`)
+        if isinstance(test, ast.BoolOp):
+            is_or = isinstance(test.op, ast.Or)
+            undecided = False
+            for operand in test.values:
+                d = self.decide(operand, fr)
+                if d is None:
+                    undecided = True
+                    continue
+                if d is is_or and not undecided:
+                    return is_or  # an earlier-or-this operand settles it and nothing undecided precedes it
+                if d is is_or:
+                    break
+            else:
+                if not undecided:
+                    return not is_or
+            if undecided:
+                pass  # fall through to the evaluation below
+        if isinstance(test, ast.UnaryOp) and isinstance(test.op, ast.Not):
+            d = self.decide(test.operand, fr)
+            if d is not None:
+                return not d
         try:
             v = self.eval(test, fr)
         except Unsupported:
@@ -889,6 +924,9 @@ class Interp:
 
     # ------------------------------------------------------------------
     def eval_call(self, node: ast.Call, fr: Frame):
+        if isinstance(node.func, ast.Name) and node.func.id in fr.funcalias:
+            # normal = self.rng.normal; normal(size=n)  is  self.rng.normal(size=n)
+            node = ast.copy_location(ast.Call(func=fr.funcalias[node.func.id], args=node.args, keywords=node.keywords), node)
         if self.call_hook is not None:
             r = self.call_hook(node, fr, self)
             if r is not NotImplemented:
@@ -939,8 +977,10 @@ class Interp:
             # numpy's out= keyword: the result is also stored in place
             for k in node.keywords:
                 if k.arg == "out" and isinstance(k.value, ast.Name):
-                    fr.env[k.value.id] = r
+                    self.assign(k.value, r, fr, node, element_store=True)
                     self._mark_mutated(k.value, fr)
+                elif k.arg == "out" and isinstance(k.value, (ast.Attribute, ast.Subscript)) and self.path_of(k.value, fr) is not None:
+                    self.assign(k.value, r, fr, node)
             return r
         if fname.split(".")[0] not in ("logger", "logging", "print"):
             self.unresolved_calls.append(f"{fr.fi.qual}: {short(node, 70)}")
